@@ -1,0 +1,16 @@
+//go:build verif
+// +build verif
+
+package pipe
+
+// VerifC33State reports, for the out-of-tree verification harness (property C33), how many bytes
+// are buffered in the pipe and whether a Read would return without blocking.
+func (p *Pipe) VerifC33State() (buffered int, closed bool) {
+	p.mu.Lock()
+	defer p.mu.Unlock()
+	if p.b != nil {
+		buffered = p.b.Len()
+	}
+	closed = p.err != nil || p.breakErr != nil
+	return
+}
